@@ -401,11 +401,16 @@ class Flow:
         self.quiet = False         # inside a method owned by the base class: its fitness / direction reads are the framework's, not the optimizer's
         self.base_nodes = set()    # id() of the FunctionDef nodes that belong to OptimizationAbstract
         self.aliases = {}          # local name -> "_config" / "_task": bound to a sub-object of the caller's object without a copy
+        self.field_aliases = {}    # private field -> "_config" / "_task": self.__x = self._config.<...> (no call, no copy)
 
     def alias_root(self, n):
         """'_config' / '_task' if n denotes (a sub-object of) the caller's configuration / task"""
         r = self_root(n)
         if r in ("_config", "_task"): return r
+        # a private field bound to a sub-object of the configuration / task: only an element store or a mutating call through it reaches the caller's object
+        # (rebinding the field itself, `self.__alpha *= x` on a number, does not)
+        if r in self.field_aliases and isinstance(n, ast.Subscript): return self.field_aliases[r]
+        if r in self.field_aliases and isinstance(n, ast.Attribute) and not is_self_attr(n): return self.field_aliases[r]
         b = n
         while isinstance(b, (ast.Attribute, ast.Subscript)): b = b.value
         if isinstance(b, ast.Name) and b.id in self.aliases: return self.aliases[b.id]
@@ -433,7 +438,7 @@ class Flow:
                     a = self_root(f.value)
                     if a is not None:
                         self.note_use(a, defs)
-                    ar = self.alias_root(f.value)
+                    ar = self.alias_root(f.value) or (self.field_aliases.get(f.value.attr) if is_self_attr(f.value) else None)
                     if ar is not None: self.note_write(ar, unparse(n))
                 src = unparse(f)
                 if src.startswith("random.") or src in ("time.time", "time.time_ns", "time.perf_counter", "os.urandom", "uuid.uuid4", "id", "hash", "os.getpid") \
@@ -474,6 +479,11 @@ class Flow:
                     for t in st.targets:
                         if isinstance(t, ast.Name): self.aliases.pop(t.id, None)
                 for t in st.targets:
+                    if is_self_attr(t):
+                        if isinstance(v, (ast.Attribute, ast.Subscript)) and self_root(v) in ("_config", "_task") and not (is_self_attr(v) and v.attr in ("_config", "_task")):
+                            self.field_aliases[t.attr] = self_root(v)
+                        else:
+                            self.field_aliases.pop(t.attr, None)
                     for tt in flat_targets(t):
                         d = self.store(tt, defs)
                         if d: defs = defs | {d}
